@@ -12,8 +12,9 @@ CONSTANTS Scheme <- WScheme
           NumCodes <- WNumCodes
           CodeSize <- WCodeSize
           Batches = {0, 1}
+          MaxFetches = 1
           MaxCmds = 40
           Small = TRUE
-INVARIANTS OnlyTargetRequested OnlyTargetWritten DBClosed BatchClosed Complete DepsExact SizeExact
+INVARIANTS OnlyTargetRequested OnlyTargetWritten DBClosed BatchClosed Complete DepsExact SizeExact FetchBound FetchesExact SlotsReleased
 VIEW View
 CHECK_DEADLOCK FALSE
